@@ -13,7 +13,7 @@ META = dict(
                 "ScheduledWhileRunning, NoTimerAfterStop, NoDialAfterStop, ConnectedQuiet, ArmedDelayGrown; nextBackoff's "
                 "numeric law exhaustively in whole seconds over 100 consecutive failures (Backoff).  Histories recorded from the "
                 "real PeeringService on a fake host/network (harness = clock, GOMAXPROCS(1) to delay spawned goroutines across "
-                "Stop/RemovePeer, gated Connect) are validated by TLC against the same model with the properties enforced; "
+                "Stop/RemovePeer, gated Connect, ph.cancel wrapped to observe and gate the sub-steps of handler.stop()) are validated by TLC against the same model with the properties enforced; "
                 "(prev,next) pairs of the real nextBackoff are validated against the numeric law."),
     level_note=("Trusted: fake host/network, projection (handler = creation number, timer none/armed/fired via Timer.Stop(), "
                 "delay class init/grown/bad, caller kind from the call stack, handler = owner of the held mutex), quiescence = "
@@ -94,7 +94,10 @@ def run(ctx):
                         "the fake network notifies like the swarm: synchronously, Connected before Connect returns",
                         "event order in the trace = order of emission under the harness mutex; Run events are emitted inside the handler's critical section"]
     ctx.cov["rule"] = ("M: all interleavings of AddPeer/RemovePeer/Start/Stop for 2 peers with bounded notifications, timer firings and "
-                       "failing dials. T: directed command scripts for the two suspected races (Stop and RemovePeer variants) and random "
+                       "failing dials; handler.stop() = two sub-steps (cancel, clear timer under the lock) whose order is a parameter, "
+                       "goroutines interleave at each boundary (timer-first must violate NoTimerAfterStop). T: directed command scripts "
+                       "for the two suspected races (Stop and RemovePeer variants), for handler goroutines running between the sub-steps "
+                       "of stop() (cancel wrapper that logs HCancel and yields before/after the real cancel) and random "
                        "scripts of 6-19 commands (add/remove/start/stop/conn/disc/settle/fire/dialok/dialfail) on 2 peers; every "
                        "recorded run is validated by TracePeering. non-trivial = run with a Connect call and an observed armed timer. "
                        "Backoff: all sequences of any length in whole seconds (M), 12/150 recorded sequences of 100 calls (T)")
